@@ -17,7 +17,7 @@ EXPLANATION = (
     "is dominated by v_position < ref_pos + length and the assertion v_position >= ref_pos, in an insertion by v_position == ref_pos, never in N, and the yielded split point / query offset have the stated linear form; "
     "R4 same flanks for all alleles -- reference window, left/right pads, every ALT and the query window are cut with the same two cigar_prefix_length results, the right one asked for len(REF) + overhang; the two "
     "CIGAR halves conserve the split operator's length; R5 no guessing -- realign returns an allele index only from a non-empty candidate list under `single candidate or best < second` (strict), otherwise (None, None); "
-    "symbolic ALTs return before any window is cut; detect_alleles_by_alignment yields only valid allele indices."
+    "symbolic ALTs return before any window is cut; detect_alleles_by_alignment yields only valid allele indices; R6 -- in the no-reference match/insertion handlers the allele sequence and the query are indexed by the same progress term (matched + inserted)."
 )
 NOT_DECIDED = "That the edit distances favour the right allele (C19 / value level) and the allele-progress arithmetic of _detect_alleles_match/insertion/deletion."
 ASSUMPTIONS = ["pysam cigartuples use the codes MIDNSHP=X -> 0..8"]
@@ -421,11 +421,38 @@ def r5(ctx):
     ctx.ob(da.qual, "only-valid-allele-indices-yielded", ok, da.loc(ys[0]) if ys else da.loc(), "an allele is yielded only if it is one of 0..num_alts (None is dropped)" if ok else "the yield is not guarded by `allele in range(num_alts + 1)`")
 
 
+def r6(ctx):
+    """No-reference handlers: allele base k is compared with query base query_start + k (same progress term)."""
+    for name in ("_detect_alleles_match", "_detect_alleles_insertion"):
+        fi = ctx.func(VP + "." + name)
+        vb = [n for n in walk_function(fi.node) if isinstance(n, ast.Assign) and u(n.targets[0]) == "vbase"]
+        qb = [n for n in walk_function(fi.node) if isinstance(n, ast.Assign) and u(n.targets[0]) == "qbase"]
+        ok = len(vb) == 1 and len(qb) == 1 and isinstance(vb[0].value, ast.Subscript) and isinstance(qb[0].value, ast.Subscript)
+        detail = "vbase/qbase assignments not found"
+        if ok:
+            vi = linear(vb[0].value.slice)
+            qi_expr = qb[0].value.slice
+            if isinstance(qi_expr, ast.Name):
+                # query_pos = query_start + a.matched + a.inserted, assigned per allele
+                defs = [v for s_, v in util.assignments_to(fi.node, qi_expr.id) if isinstance(v, ast.AST)]
+                qi = linear(defs[-1]) if defs else None
+            else:
+                qi = linear(qi_expr)
+            progress = {"a.matched": 1, "a.inserted": 1}
+            ok = vi == progress and qi is not None and {k: v for k, v in qi.items() if k != "query_start"} == progress and qi.get("query_start") == 1 and u(vb[0].value.value) == "allele_seq" and u(qb[0].value.value) == "bam_read.query_sequence"
+            detail = "allele index %s, query index %s" % (vi, qi)
+        ctx.ob(fi.qual, "allele-and-query-advance-in-lock-step", ok, fi.loc(vb[0]) if vb else fi.loc(), "allele base [matched + inserted] is compared with query base [query_start + matched + inserted]" if ok else "allele and query are not indexed by the same progress (%s): a read carrying the allele is compared against the wrong allele characters" % detail)
+        sq = util.single_def(fi.node, "allele_seq")
+        ok = sq is not None and u(sq) == "variant.get_allele(i)"
+        ctx.ob(fi.qual, "allele-sequence-of-allele-i", ok, fi.loc(), "allele_seq is the sequence of the allele whose progress object is updated" if ok else "allele_seq is %s" % (u(sq) if sq is not None else "?"))
+
+
 RULES = [
     ("C06.R1", "CIGAR consumption tables of the three walkers vs. SAM", r1),
     ("C06.R2", "unknown operators are rejected", r2),
     ("C06.R3", "overlap guards and split point / query offset of every yield", r3),
     ("C06.R4", "same flanks for all alleles; CIGAR split conservation", r4),
     ("C06.R5", "no guessing: strict best, non-empty candidates, symbolic ALT", r5),
+    ("C06.R6", "no-reference handlers index allele and query by the same progress", r6),
 ]
-FLOORS = {"C06.R1": 28, "C06.R2": 3, "C06.R3": 8, "C06.R4": 13, "C06.R5": 10}
+FLOORS = {"C06.R1": 28, "C06.R2": 3, "C06.R3": 8, "C06.R4": 13, "C06.R5": 10, "C06.R6": 4}
